@@ -169,7 +169,9 @@ def sweep_padded(tier, seed):
 
 def check_helpers(inp):
   n, a, c, size = inp['N'], inp['lo'], inp['hi'], inp['size']
-  ex = {'x': np.arange(n, dtype=np.int16), 'y': np.arange(n * 2, dtype=np.float64).reshape(n, 2)}
+  ex = {'x': np.arange(n, dtype=np.int16), 'y': np.arange(n * 2, dtype=np.float64).reshape(n, 2),
+        'flag': (np.arange(n) % 2 == 0), 'u8': np.arange(n, dtype=np.uint8), 'u32': np.arange(n, dtype=np.uint32) + 7,
+        'h': np.arange(n, dtype=np.float16), 's': np.array([b'ab'] * n, dtype='S2')}
   keep = {k: v.copy() for k, v in ex.items()}
   s = cds.slice_examples(ex, slice(a, c))
   for k in ex:
@@ -187,8 +189,8 @@ def check_helpers(inp):
       return 'pad mask wrong'
     for k in ex:
       if p[k].dtype != ex[k].dtype or p[k].shape != (size,) + ex[k].shape[1:]:
-        return 'pad dtype/shape'
-      if not np.array_equal(p[k][:n], keep[k]) or np.any(p[k][n:] != 0):
+        return f'pad_examples changes the dtype / shape of feature {k!r}: {ex[k].dtype}{ex[k].shape} -> {p[k].dtype}{p[k].shape}'
+      if not np.array_equal(p[k][:n], keep[k]) or np.any(p[k][n:] != np.zeros((), ex[k].dtype)):
         return 'pad content'
   else:
     try:
